@@ -258,6 +258,19 @@ class Gen:
         self.geoms.append(f"g{b}_0")
         self.sites.append((f"s{b}", b))
       ntree += n
+    if ft.get("curtain") and not ft["tiny"]:
+      # a row of small spheres on vertical slides, lined up across the fixed sweep direction of the SAP broadphase (0.59, 0.78, 0.12): they
+      # never touch each other but every pair of them is a sweep candidate (more candidates than broadphase threads); one DOF and one tree each
+      n = int(r.integers(16, 25))
+      for k in range(n):
+        b = len(self.bodies)
+        self.bodies.append((f"b{b}", ntree + k))
+        px, py = -1.2 + 0.78 * 0.14 * k, 1.0 - 0.59 * 0.14 * k
+        wb += f'    <body name="b{b}" pos="{_f([px, py, self.u(0.05, 0.12)])}">\n      <joint name="j{b}_0" type="slide" axis="0 0 1"/>\n      <geom name="g{b}_0" type="sphere" size="0.05"/>\n      <site name="s{b}" size="0.01"/>\n    </body>\n'
+        self.joints.append((f"j{b}_0", "slide", b))
+        self.geoms.append(f"g{b}_0")
+        self.sites.append((f"s{b}", b))
+      ntree += n
     self.ntree = ntree
     hs = [j for j in self.joints if j[1] in ("hinge", "slide")]
 
